@@ -7,6 +7,7 @@ import (
 	"testing/synctest"
 
 	"github.com/avos-io/goat"
+	"google.golang.org/grpc"
 	"google.golang.org/grpc/stats"
 )
 
@@ -27,8 +28,40 @@ func (rt *runtimeS) serverObservers() []goat.ServerOption {
 	return o
 }
 
+// passThroughServerInterceptors: n interceptors of each kind that do nothing but call the next stage
+// (installing them must not change what callers see - C03, C20).
+func passThroughServerInterceptors(n int) []goat.ServerOption {
+	if n <= 0 {
+		return nil
+	}
+	u := func(ctx context.Context, req any, _ *grpc.UnaryServerInfo, h grpc.UnaryHandler) (any, error) {
+		return h(ctx, req)
+	}
+	s := func(srv any, ss grpc.ServerStream, _ *grpc.StreamServerInfo, h grpc.StreamHandler) error {
+		return h(srv, ss)
+	}
+	if n == 1 {
+		return []goat.ServerOption{goat.UnaryInterceptor(u), goat.StreamInterceptor(s)}
+	}
+	us := make([]grpc.UnaryServerInterceptor, n)
+	ss := make([]grpc.StreamServerInterceptor, n)
+	for i := range us {
+		us[i], ss[i] = u, s
+	}
+	return []goat.ServerOption{goat.ChainUnaryInterceptor(us...), goat.ChainStreamInterceptor(ss...)}
+}
+
 func (rt *runtimeS) clientObservers(i int) []goat.DialOption {
 	var o []goat.DialOption
+	if n := rt.sc.CIcpt; n > 0 {
+		u := func(ctx context.Context, m string, req, reply any, cc *grpc.ClientConn, inv grpc.UnaryInvoker, opts ...grpc.CallOption) error {
+			return inv(ctx, m, req, reply, cc, opts...)
+		}
+		s := func(ctx context.Context, d *grpc.StreamDesc, cc *grpc.ClientConn, m string, st grpc.Streamer, opts ...grpc.CallOption) (grpc.ClientStream, error) {
+			return st(ctx, d, cc, m, opts...)
+		}
+		o = append(o, goat.WithUnaryInterceptor(u), goat.WithStreamInterceptor(s))
+	}
 	for k := 0; k < rt.sc.CStats; k++ {
 		o = append(o, goat.WithStatsHandler(nopStats{}))
 	}
